@@ -365,6 +365,10 @@ func runSchedule(sc scenario, choose func(n int) int) string {
 		r.apps = append(r.apps, &appState{tid: 0x10 + i, script: s})
 		cfg = append(cfg, fmt.Sprintf("%x:app", 0x10+i))
 	}
+	// every map of the world is complete before the first runner goroutine starts
+	for _, t := range r.threads {
+		w.evt[t] = make(chan struct{}, 1)
+	}
 	if sc.hasRx {
 		w.startReceiver(rxTid, n, sc.rx)
 	}
